@@ -3,6 +3,7 @@ import Genshi.Model.Subst
 import Genshi.Model.SubstEmit
 import Genshi.Model.SubstRead
 import Genshi.Model.SubstDomain
+import Genshi.Model.SubstFmt
 namespace Driver.C01
 open Genshi Genshi.Subst Genshi.Sexp
 
@@ -91,6 +92,18 @@ partial def node? : Sexp → Option Node
       let b ← b.toBool?; let kids ← kids.mapM node?; pure (.cond b kids)
   | _ => none
 
+def fattr? : Sexp → Option (Name × FAttr)
+  | .list [.str n, .atom "hole"] => some (n, .hole)
+  | .list [.str n, .list [.atom "lit", .str v]] => some (n, .lit v)
+  | _ => none
+
+def fpiece? : Sexp → Option FPiece
+  | .list [.atom "T", .str s] => some (.text s)
+  | .atom "H" => some .hole
+  | .list [.atom "S", .str t, .list attrs] => do let attrs ← attrs.mapM fattr?; pure (.open t attrs)
+  | .list [.atom "E", .str t] => some (.close t)
+  | _ => none
+
 def method? : Sexp → Option Method
   | .atom "xml" => some .xml
   | .atom "xhtml" => some .xhtml
@@ -140,6 +153,19 @@ def handle : List Sexp → Option Sexp
         let evs := expectedList [] nodes
         pure (.list ((if strip then coalesceStrip m evs else coalesce evs).map evOut))
       else pure (.atom "outside")
+  -- `Markup(fmt) % operands` from the author's pieces: the format string, the operator's result,
+  -- and what `markup_format_site` says re-reading it gives
+  | [.atom "fmtsite", .list pieces, .list args] => do
+      let pieces ← pieces.mapM fpiece?
+      let args ← args.mapM Sexp.toStr?
+      let f := fmtString pieces
+      let res := match Genshi.Escape.mMod Genshi.Escape.escapePy f (.tup (args.map Genshi.Escape.Opnd.plain)) with
+        | .ok s => Sexp.str s
+        | .error _ => .atom "raises"
+      let evs := match fillEsc pieces args with
+        | some toks => Sexp.list ((coalesce (toks.flatMap tokEvents)).map evOut)
+        | none => .atom "N"
+      pure (.list [.str f, res, evs])
   -- the specification-side reader on a document
   | [.atom "read", m, .str doc] => do
       let m ← method? m
